@@ -7,18 +7,20 @@ STUBS = {GETNEXT: "stub_GetNextCode_rec", UPDATE: "stub_UpdateCodeCount", TREECT
 
 ASSUMPTIONS = ["ring-index queries: DecompressCode is replaced (IR-level redirect in the solver; weakened symbol + harness definition in the native replay build) by its index contract - appends 1..60 bytes at the write index modulo 4096, "
                "reports end of stream at will; the ring indices of the pre-state are ARBITRARY below 4096 (one-step induction over fill histories)",
+               "copy_ring / getdata_ring: variable-length memcpy calls inside CopyAvailableData/GetData are replaced IN THE SOLVER by a hook that records (destination, source, length) - the window contents never enter the formula; the native replay executes the real memcpy over a position-revealing window and compares bytes",
                "compositional: the adaptive Huffman layer (GetNextCode + UpdateCodeCount) is replaced at IR level by its contract from C15 - each call yields ANY code below 314 after consuming 1..12 bits - "
                "so the LZ layer is decided for every code sequence, not only those a particular tree would produce; the tree itself is C15's subject",
                "bit reader: arbitrary valid state over up to 4 symbolic bytes (one-step induction); position prefix table: all 256 prefixes",
                "whole-decoder queries start from the fresh decoder over INLEN symbolic input bytes and compare with a reference LZ decoder (4 KiB space-filled window) driven by the same code choices"]
-OUTSIDE = ["DecompressCode / GetData / CopyAvailableData, i.e. everything that reads or writes the CONTENTS of the 4 KiB window, and therefore 'output equals the reference decoder' and drain-size independence: "
-           "the window object defeats the encoding (see lib/props/C04.py for the measurements); decided are the bit reader, the position prefix table, GetRepeatOffset, the ring-INDEX arithmetic of FillDecompressBuffer and GetInternalBuffer, and (in C15) the Huffman tree",
+OUTSIDE = ["DecompressCode, i.e. what is written INTO the 4 KiB window (literals, match copies from distance+1 behind), and therefore 'output equals the reference decoder' end to end: "
+           "the window object defeats the encoding (see lib/props/C04.py for the measurements); decided are the bit reader, the position prefix table, GetRepeatOffset, the ring-INDEX arithmetic of FillDecompressBuffer, GetInternalBuffer, "
+           "CopyAvailableData and GetData (which bytes of the window are handed out, in which order, to where - for every ring state and request size), and (in C15) the Huffman tree",
            "the composition of the real 314-symbol tree with the LZ layer in one query (a single code on the real tree did not finish: three 627/941-entry tables indexed symbolically)",
            "inputs longer than INLEN bytes end-to-end (the number of codes grows with the input); drain sequences longer than two GetData calls / three GetInternalBuffer calls; the refill path after 4034 buffered bytes",
            "encoder-produced streams (no encoder exists in the library); VolFile::ExtractFileLzh (same GetInternalBuffer loop, over the file model) is not run"]
 LEVEL_TEXT = ("PARTIAL: bounded model checking of the two leaf components of the decoder against independent descriptions - the bit reader (one-step induction: MSB-first, zero-padded past the end, never outside its buffer) "
-              "and the LZHUF position prefix table (all 256 prefixes) - plus the ring-index arithmetic of the window layer (fill bound, internal-buffer extents) by one-step induction with the window untouched; the adaptive Huffman tree is C15. "
-              "The window contents (DecompressCode, copying drain) could not be decided within the solver budget and are not claimed.")
+              "and the LZHUF position prefix table (all 256 prefixes) - plus the ring-index arithmetic of the window layer (fill bound, internal-buffer extents, the copying drain and GetData with their memcpy calls recorded instead of executed) by one-step induction from arbitrary ring indices; the adaptive Huffman tree is C15. "
+              "What DecompressCode writes into the window could not be decided within the solver budget and is not claimed.")
 LEVEL_NOTE = "Stubs: the Huffman tree constructor is replaced by an empty tree in the solver only (the native replay runs the real constructor; the tree is never consulted in these queries); in the two ring-index queries DecompressCode is replaced by its index contract in the solver (IR-level redirect) AND in the native replay build (the real object is linked with that one symbol weakened), so their counterexamples replay against the real FillDecompressBuffer/GetInternalBuffer."
 
 
@@ -33,6 +35,14 @@ def queries(tier):
                          "so pending data never wraps to 'empty'; nothing is decoded at end of stream; an empty ring is refilled"))
     qs.append(Query("internal_buffer_step", "C04_lzh.cpp", "h_internal_buffer_step", {"RING": 1}, unwind=30, timeout=600, redirects={TREECTOR: "stub_TreeCtor", DCODE: "stub_DecompressCode_ring"}, native_redirects={DCODE: "stub_DecompressCode_ring"},
                     desc="HuffLZ::GetInternalBuffer at end of stream from ARBITRARY ring indices: pointer at the read index, length = pending bytes up to the window end, inside the window, 0 exactly when empty, read index advances modulo 4096"))
+    qs.append(Query("copy_ring", "C04_lzh.cpp", "h_copy_ring", {"RING": 1}, unwind=30, timeout=600, redirects={TREECTOR: "stub_TreeCtor", DCODE: "stub_DecompressCode_ring"}, native_redirects={DCODE: "stub_DecompressCode_ring"},
+                    ir2c_opts=["--memcpy-hook", "_ZN10OP2Utility7Archive6HuffLZ17CopyAvailableDataEPcm=stub_memcpy_ring"],
+                    desc="HuffLZ::CopyAvailableData from ARBITRARY ring indices and ANY 64-bit request size, its memcpy calls recorded instead of executed: min(requested, pending) bytes, taken from the ring in order from the read index "
+                         "(one copy up to the window end, one after the wrap), written contiguously into the caller's buffer and never past the request; read index advances modulo 4096 (native replay compares real bytes)"))
+    qs.append(Query("getdata_ring", "C04_lzh.cpp", "h_getdata_ring", {"RING": 1}, unwind=30, timeout=600, redirects={TREECTOR: "stub_TreeCtor", DCODE: "stub_DecompressCode_ring"}, native_redirects={DCODE: "stub_DecompressCode_ring"},
+                    ir2c_opts=["--memcpy-hook", "_ZN10OP2Utility7Archive6HuffLZ17CopyAvailableDataEPcm=stub_memcpy_ring", "--memcpy-hook", "_ZN10OP2Utility7Archive6HuffLZ7GetDataEPcm=stub_memcpy_ring"],
+                    desc="HuffLZ::GetData from ARBITRARY ring indices, ANY request size, end-of-stream flag symbolic, at most one further code decoded (index contract): returns min(requested, available), short only at end of stream, "
+                         "copies contiguous and in ring order, read index advances modulo 4096"))
     # NOT RUN (kept in harness/C04_lzh.cpp: h_decompress_code, h_decode, h_copy_available): every query that puts the 4 KiB window of the real HuffLZ object
     # under symbolic execution exceeded the budget - DecompressCode from an arbitrary window: symex 130 s, 242 k steps, SAT not finished
     # after 30 min at 8 GB (also with a concrete patterned window, concrete write index, field sensitivity 64 and 8192); whole decoder over
